@@ -57,6 +57,10 @@ def getTroughWells {α} (n : Nat) (wells : List α) : Option (List α) :=
   if wells.isEmpty then none
   else some ((List.replicate (n / wells.length + 1) wells).flatten.take n)
 
+/-- `reagent_distribution`: reduce `multi_disp` as far as needed to fit `max_volume`. -/
+def adaptMultiDisp (M v : Rat) (md : Int) : Int :=
+  if M < (md : Rat) * v then (M / v).floor else md
+
 /-- Steps of a transfer plan. `action` is the requested tip action after a pair. -/
 inductive PlanStep where
   | pair (s d : String) (v : Rat)
